@@ -237,6 +237,13 @@ def run(ctx):
             ctx.cov['traces_validated_against_impl'] += len(res)
             bad = [i for i, r in enumerate(res) if not r]
             if bad: ctx.broken.append(f'generated model and implementation disagree on {len(bad)} hermitian/frobenius case(s), first: {hf[bad[0]][:300]}')
+    # memory-layout independence of the dense entry points (same values, other strides)
+    import utils as _u
+    _L = qx.to_np(qx.rand_int(ctx.rng, 3, 4, -3, 3)); _Rm = qx.to_np(qx.rand_int(ctx.rng, 4, 2, -3, 3))
+    cm.layout_sweep(ctx, qx, 'C01', 'quat_matmat(left)', lambda X: _u.quat_matmat(X, _Rm), _L, {'shape': [3, 4]})
+    cm.layout_sweep(ctx, qx, 'C01', 'quat_matmat(right)', lambda X: _u.quat_matmat(_L, X), _Rm, {'shape': [4, 2]})
+    cm.layout_sweep(ctx, qx, 'C01', 'quat_hermitian', lambda X: _u.quat_hermitian(X), _L, {'shape': [3, 4]})
+    cm.layout_sweep(ctx, qx, 'C01', 'quat_frobenius_norm', lambda X: _u.quat_frobenius_norm(X), _L, {'shape': [3, 4]})
     ctx.cov['rule'] = ('products: all 16 basis-unit pairs at every (position, position) of every shape up to '
                        f'{2 if ctx.quick() else 3}^3 (exhaustive) + random integer/sparse/pure-imaginary/single-axis/zero/2^20-magnitude cases, six storage paths each, '
                        'compared bit-for-bit with the exact Hamilton product and with the generated Gallina model; float cases incl. 2^+-400 scaling within a rounding bound; '
